@@ -37,7 +37,7 @@ add("C18", "exploration", "svmc-E1",
     "DESIGN.md 4/C18")
 add("C19", "exploration", "svmc-E1",
     "bounded-exhaustive enumeration of path pairs against component-wise resolution",
-    "Every ordered pair of paths with 1..5/6 components over {a,b,c} in six absolute/relative x separator forms; the result resolved component-wise against dir(base) must equal the target, and be '.' iff the target is dir(base).",
+    "Every ordered pair of paths with 1..6/7 components over {a,b,c} in six absolute/relative x separator forms; the result resolved component-wise against dir(base) must equal the target, and be '.' iff the target is dir(base).",
     "Ordinary components only, as the property states.",
     "DESIGN.md 4/C19")
 add("C20", "fault_enumeration", "svmc-E1",
@@ -48,7 +48,7 @@ add("C20", "fault_enumeration", "svmc-E1",
 
 add("C04", "model_checking", "svmc-E2",
     "bounded-exhaustive enumeration of maps x insertion orders x queries, plus DFS over all histories of map-producing operations on real maps",
-    "E1: every multiset of <=5/6 positions over an 8-point grid (incl. u32::MAX coordinates) in every insertion order through three constructions, runs of equal keys of every size (three blocks up to 9/12, single runs to 200), all queries of a neighbourhood grid, against a linear-scan greatest-lower-bound with first-of-equals. E2: every history of <=3/4 operations (rewrite x4, adjust_mappings x6, flatten x3, save+load) from 38 seed maps, ordering/get_token/lookup invariants evaluated in every reached state of the real objects.",
+    "E1: every multiset of <=6/7 positions over an 8-point grid (incl. u32::MAX coordinates) in every insertion order through three constructions, runs of equal keys of every size (three blocks up to 9/12, single runs to 200), all queries of a neighbourhood grid, against a linear-scan greatest-lower-bound with first-of-equals. E2: every history of <=4/5 operations (rewrite x4, adjust_mappings x6, flatten x3, save+load) from 38 seed maps, ordering/get_token/lookup invariants evaluated in every reached state of the real objects.",
     "First-of-equals is judged against the map's own iteration order; E2 seeds keep coordinates small (overflow at extremes belongs to C05).",
     "DESIGN.md 4/C04")
 add("C07", "exploration", "svmc-E1",
@@ -75,7 +75,7 @@ add("C06", "fault_enumeration", "svmc-E1",
 
 add("C08", "exploration", "svmc-E1",
     "bounded-exhaustive enumeration of well-formed index maps x query grids against independent flatten / section-lookup models",
-    "Every index map with 1..3/4 sections over 6 offsets x an 8-map pool (empty, multi-line, duplicate positions, shared source names with/without contents, ignore-listed source, range tokens, root-prefixed), one slot optionally a nested index / Hermes map / url-only, built by constructor and by decoding; flatten() is compared with RFlatten, index.lookup_token with RIndexLookup on a grid around every offset, and whenever the index finds a token the flattened map must report the same original location.",
+    "Every index map with 1..3/4 sections over 6 offsets x a 9-map pool (empty, multi-line, duplicate positions, shared source names with/without contents, ignore-listed source, range tokens, root-prefixed), one slot optionally a nested index / Hermes map / url-only, built by constructor and by decoding; flatten() is compared with RFlatten, index.lookup_token with RIndexLookup on a grid around every offset, and whenever the index finds a token the flattened map must report the same original location.",
     "Ties at one position: any member accepted; flattened sources compared by name.",
     "DESIGN.md 4/C08")
 add("C09", "exploration", "svmc-E1",
